@@ -42,7 +42,16 @@ class ExecHandler(Virtual):
         if self.selectorargs:
             args.extend(self.selectorargs.split(" "))
 
-        if not self.protocol.check_tls():
+        # The script can only write to the client directly if the output file
+        # has a real descriptor (not the in-memory buffer used for WAP text
+        # conversion) and the connection is not wrapped in TLS.
+        try:
+            wfile.fileno()
+            has_descriptor = True
+        except (AttributeError, OSError):
+            has_descriptor = False
+
+        if has_descriptor and not self.protocol.check_tls():
             subprocess.run(args, env=newenv, stdout=wfile)
         else:
             # We can't pass the file handler because it's wrapped in a TLS context.
